@@ -79,6 +79,19 @@ func genCase(r *lib.Rng) (input, string) {
 		if r.Chance(1, 12) {
 			name = r.Pick(badNames)
 			klass = "badname"
+		} else if r.Chance(1, 12) {
+			// a name containing one byte outside [a-zA-Z0-9_-], at a random position
+			var c byte
+			for {
+				c = byte(r.Intn(128))
+				if !(c >= 'a' && c <= 'z' || c >= 'A' && c <= 'Z' || c >= '0' && c <= '9' || c == '_' || c == '-') {
+					break
+				}
+			}
+			base := r.Pick(goodNames)
+			pos := r.Intn(len(base) + 1)
+			name = base[:pos] + string([]byte{c}) + base[pos:]
+			klass = "badname-char"
 		}
 		if _, dup := dict[name]; dup {
 			continue
